@@ -19,8 +19,9 @@
 (*          (value.py can_assign), the solver runs per type variable, pass *)
 (*          2 re-checks every argument against the substituted annotation. *)
 (*                                                                         *)
-(* Impl* operators transcribe pyanalyze (file:line in comments).  Ref*     *)
-(* operators are the meaning of the property, written over DENOTATIONS:    *)
+(* Impl* operators transcribe pyanalyze (file:line in comments, as of       *)
+(* /repo commit 3df1c33).  Ref* operators are the meaning of the           *)
+(* property, written over DENOTATIONS:                                     *)
 (* a static value denotes a set of runtime atoms, Any is gradual; they     *)
 (* never mention bottom/top/fold/can_assign.  Every operator takes the     *)
 (* case (or its parts) as a parameter, so that TypeVarSolveTrace.tla       *)
@@ -50,11 +51,14 @@ ParamsFull == << P("x", "1"), P("x", "T"), P("x", "a"), P("x", "f"),
                  P("xu", "1"), P("xu", "a") >>
 ParamsSmall == << P("x", "1"), P("x", "a"), P("lst", "1a"), P("cb", "int"), P("cb", "str"), P("cb", "Any"),
                   P("map", "int_str"), P("dct", "1a"), P("xu", "a") >>
+\* the smallest catalogues on which every action of the machine still fires (quick-tier coverage runs)
+ValsCov == << <<"Any">>, <<"LT">>, <<"int">>, <<"str">>, << >> >>
+ParamsCov == << P("x", "1"), P("x", "a"), P("lst", "1a"), P("cb", "int"), P("cb", "str"), P("map", "int_str") >>
 DeclsFull == <<"plain", "bint", "cis", "cif">>
 NoVals == << >>
 
 CONSTANTS
-    Mode,        \* "raw" | "call"
+    Mode,        \* "raw" | "call" | "both" (two initial states; used by the coverage runs)
     ValSeq,      \* raw: sequence of static values used in Lower/Upper bounds
     OneOfSeq,    \* raw: sequence of constraint lists (IsOneOf)
     OrSeq,       \* raw: sequence of OrBound records
@@ -62,6 +66,8 @@ CONSTANTS
     ParamSeq,    \* call: sequence of [f, a] parameter kinds
     DeclSeq,     \* call: sequence of declarations of T
     MaxParams,   \* call: number of parameters
+    MinSize,     \* smallest multiset that is a case (0 in the exhaustive runs; simulation runs use it to
+                 \* reach the large multisets instead of stopping early with probability 1/2 per step)
     Bug          \* "none"; sensitivity self-tests: "skip_final_check", "no_second_pass"
 
 (***************************************************************************)
@@ -105,21 +111,21 @@ ImplBases(c) ==
 
 \* l.can_assign(r) for two non-union values
 ImplAssignSimple(l, r) ==
-    IF r = "Any" THEN TRUE                       \* value.py:105 Value.can_assign (other is AnyValue); :427 AnyValue
+    IF r = "Any" THEN TRUE                       \* value.py:101-103 Value.can_assign (other is AnyValue); :427 AnyValue
     ELSE IF l = "Any" THEN TRUE                  \* value.py:424-427 AnyValue.can_assign: always allowed
-    ELSE IF l \in KnownSimples THEN l = r        \* value.py:588-593 KnownValue: same type and equal; :126 self == other
-    ELSE ClsOf(l) \in ImplBases(ClsOf(r))        \* value.py:825-835 TypedValue -> type_object.py:135-140 base_classes
+    ELSE IF l \in KnownSimples THEN l = r        \* value.py:582-593 KnownValue: same type and equal; :126 self == other
+    ELSE ClsOf(l) \in ImplBases(ClsOf(r))        \* value.py:819-834 TypedValue -> type_object.py:135-140 base_classes
 
-\* MultiValuedValue.can_assign(simple r), value.py:2008-2031: Any is accepted, else some member accepts
+\* MultiValuedValue.can_assign(simple r), value.py:2006-2030: Any is accepted, else some member accepts
 ImplUnionAcceptsSimple(L, r) == r = "Any" \/ \E j \in DOMAIN L : ImplAssignSimple(L[j], r)
 
 \* L.can_assign(R) for values.  A union (or Never) on the right is accepted iff every member is
-\* (value.py:108-119 for a non-union left, :1995-2007 for a union left; Never: :110, :1997).
+\* (value.py:104-116 for a non-union left, :1993-2005 for a union left; Never: :107, :1994).
 ImplCanAssign(L, R) ==
     IF Len(L) = 1 THEN \A i \in DOMAIN R : ImplAssignSimple(L[1], R[i])
     ELSE \A i \in DOMAIN R : ImplUnionAcceptsSimple(L, R[i])
 
-\* unite_values(A, B), value.py:2873-2917: flatten, drop repeats keeping the first occurrence
+\* unite_values(A, B), value.py:2875-2919: flatten, drop repeats keeping the first occurrence
 RECURSIVE AppendNew(_, _)
 AppendNew(acc, s) ==
     IF s = << >> THEN acc
@@ -218,10 +224,13 @@ ImplSolveSeq(seq) ==
     LET st == ImplFold(St0, Dedup(seq))
         r == ImplFinish(st)
     IN IF r.verdict = "error" THEN r ELSE ImplOptions(st, r)
-\* intermediate states after each bound of the de-duplicated sequence (SolveStep hook events)
+\* intermediate states as the proposed SolveStep hook reports them: the hook sits at the end of the loop
+\* body, which the two `continue` branches (typevar.py:92, :112) do not reach
 RECURSIVE ImplFoldStates(_, _)
 ImplFoldStates(st, seq) ==
-    IF seq = << >> THEN << >> ELSE LET s2 == ImplStep(st, Head(seq)) IN <<s2>> \o ImplFoldStates(s2, Tail(seq))
+    IF seq = << >> THEN << >>
+    ELSE LET s2 == ImplStep(st, Head(seq))
+         IN (IF ImplBranch(st, Head(seq)) \in {"LSkipAny", "OrSkip"} THEN << >> ELSE <<s2>>) \o ImplFoldStates(s2, Tail(seq))
 
 (***************************************************************************)
 (* Ref: denotational meaning of the bounds                                 *)
@@ -346,14 +355,14 @@ MapRet(a) == CASE a = "int_str" -> <<"str">> [] a = "bool_int" -> <<"int">> [] a
 DictKey(a) == CASE a = "1a" -> <<"L1">> [] a = "aT" -> <<"La">>
 DictVal(a) == CASE a = "1a" -> <<"La">> [] a = "aT" -> <<"LT">>
 
-\* TypeVarValue.get_inherent_bounds (value.py:2184-2188); U is always undeclared
+\* TypeVarValue.get_inherent_bounds (value.py:2186-2190); U is always undeclared
 ImplInherent(decl, tv) ==
     IF tv # "T" THEN << >>
     ELSE CASE decl = "bint" -> << Ub(<<"int">>) >>
            [] decl = "cis" -> << Ob(<< <<"int">>, <<"str">> >>) >>
            [] decl = "cif" -> << Ob(<< <<"int">>, <<"float">> >>) >>
            [] OTHER -> << >>
-\* TypeVarValue.get_fallback_value (value.py:2222-2227)
+\* TypeVarValue.get_fallback_value (value.py:2224-2229)
 ImplFallback(decl) ==
     CASE decl = "bint" -> <<"int">>
       [] decl = "cis" -> ImplUnite(<<"int">>, <<"str">>)
@@ -362,8 +371,8 @@ ImplFallback(decl) ==
 
 \* The type of the callback's own parameter is asked to accept the TypeVarValue:
 \*   AnyValue.can_assign -> {} (value.py:424-427): no bound;
-\*   MultiValuedValue.can_assign replaces the type variable by its fallback value (value.py:1993-1994): no bound;
-\*   TypedValue / KnownValue reach Value.can_assign -> TypeVarValue.can_be_assigned (value.py:120-121, :2204-2211):
+\*   MultiValuedValue.can_assign replaces the type variable by its fallback value (value.py:1991-1992): no bound;
+\*   TypedValue / KnownValue reach Value.can_assign -> TypeVarValue.can_be_assigned (value.py:117-118, :2206-2213):
 \*   UpperBound + inherent bounds.
 ImplUpperFrom(decl, ptype) ==
     IF Len(ptype) = 1 /\ ptype # AnyV THEN << Ub(ptype) >> \o ImplInherent(decl, "T") ELSE << >>
@@ -372,10 +381,10 @@ ImplUpperFrom(decl, ptype) ==
 \* in the order the code appends them (pass 1: signature.py:1254-1266 -> _check_param_type_compatibility
 \* :627-674 -> annotation.can_assign(argument))
 ImplParamBounds(decl, p, tv) ==
-    CASE p.f = "x" ->       \* TypeVarValue.can_assign, value.py:2190-2197: [LowerBound, *inherent]
+    CASE p.f = "x" ->       \* TypeVarValue.can_assign, value.py:2192-2199: [LowerBound, *inherent]
             IF tv = "T" THEN << Lb(ObjLit(p.a)) >> \o ImplInherent(decl, "T") ELSE << >>
-      [] p.f = "lst" ->     \* GenericValue.can_assign value.py:1042-1062: the list display's one generic
-                            \* argument is the union of its members (SequenceValue.__init__ :1176)
+      [] p.f = "lst" ->     \* GenericValue.can_assign value.py:1042-1064: the list display's one generic
+                            \* argument is the union of its members (SequenceValue.__init__ :1177)
             IF tv = "T" THEN << Lb(ListElems(p.a)) >> \o ImplInherent(decl, "T") ELSE << >>
       [] p.f = "cb" ->      \* CallableValue.can_assign value.py:1763 -> Signature.can_assign signature.py:1507-1520
             IF tv = "T" THEN ImplUpperFrom(decl, TypeNamed(p.a)) ELSE << >>
@@ -386,7 +395,7 @@ ImplParamBounds(decl, p, tv) ==
       [] p.f = "xu" ->
             IF tv = "T" THEN << >> ELSE << Lb(ObjLit(p.a)) >>
 
-\* pass 1 fails for a parameter when TypeVarValue.make_bounds_map (value.py:2213-2220) cannot solve the
+\* pass 1 fails for a parameter when TypeVarValue.make_bounds_map (value.py:2215-2222) cannot solve the
 \* bounds of that single match, or when a union-typed callback parameter rejects the fallback value
 ImplParamTypeOfCallback(p) == IF p.f = "cb" THEN TypeNamed(p.a) ELSE IF p.f = "map" THEN MapParam(p.a) ELSE AnyV
 ImplP1Fails(decl, p) ==
@@ -394,7 +403,7 @@ ImplP1Fails(decl, p) ==
           ImplParamBounds(decl, p, tv) # << >> /\ ImplSolveSeq(ImplParamBounds(decl, p, tv)).verdict = "error"
     \/ Len(ImplParamTypeOfCallback(p)) > 1 /\ ~ImplCanAssign(ImplParamTypeOfCallback(p), ImplFallback(decl))
 
-\* unify_bounds_maps (value.py:2784-2789): concatenation in parameter order
+\* unify_bounds_maps (value.py:2786-2791): concatenation in parameter order
 RECURSIVE ImplCallBounds(_, _, _)
 ImplCallBounds(decl, ps, tv) ==
     IF ps = << >> THEN << >> ELSE ImplParamBounds(decl, Head(ps), tv) \o ImplCallBounds(decl, Tail(ps), tv)
@@ -465,7 +474,7 @@ vars == <<case, pc, idx, left, order, st, res>>
 
 Blank == [bounds |-> << >>, decl |-> "plain", ps |-> << >>]
 Init ==
-    /\ case = Blank /\ pc = (IF Mode = "raw" THEN "gen" ELSE "decl")
+    /\ case = Blank /\ pc \in (IF Mode = "raw" THEN {"gen"} ELSE IF Mode = "call" THEN {"decl"} ELSE {"gen", "decl"})
     /\ idx = << >> /\ left = {} /\ order = << >> /\ st = St0 /\ res = Ok(AnyV)
 
 LastIdx == IF idx = << >> THEN 1 ELSE idx[Len(idx)]
@@ -481,7 +490,7 @@ AddBound ==
     /\ UNCHANGED <<pc, left, order, st, res>>
 
 StartFold ==
-    /\ pc = "gen"
+    /\ pc = "gen" /\ Len(idx) >= MinSize
     /\ pc' = "fold" /\ left' = DOMAIN case.bounds
     /\ UNCHANGED <<case, idx, order, st, res>>
 
@@ -562,7 +571,7 @@ AddParam ==
          /\ case' = [case EXCEPT !.ps = Append(@, ParamSeq[k])]
     /\ UNCHANGED <<pc, left, order, st, res>>
 StartCall ==
-    /\ pc = "cgen" /\ Len(idx) >= 1
+    /\ pc = "cgen" /\ Len(idx) >= 1 /\ Len(idx) >= MinSize
     /\ pc' = "cpick" /\ left' = DOMAIN case.ps
     /\ UNCHANGED <<case, idx, order, st, res>>
 PickParam ==
